@@ -380,6 +380,39 @@ func raceC06(seed uint64, seconds int) {
 			}
 		}(di)
 	}
+	// the ONLY route of a locked router comes and goes (the tree passes through "empty"), readers serve it meanwhile: every
+	// answer is the route's handler or 404, and nothing is read outside the lock on the way to "this tree is empty"
+	var nLone atomic.Int64
+	{
+		lone := mux.NewRouter("lone", raceCall, &H{base: "notFound"}, notAllowedBuilder, optionsBuilder, mux.WithLock(true))
+		wg.Add(1)
+		go func() {
+			defer wg.Done()
+			for !stop.Load() {
+				func() {
+					defer func() { recover() }()
+					lone.Handle("/only/{id}", &H{base: "user:7", hid: 7}, nil, "GET")
+				}()
+				lone.Remove("/only/{id}")
+				nLone.Add(1)
+			}
+		}()
+		for q := 0; q < 2; q++ {
+			wg.Add(1)
+			go func() {
+				defer wg.Done()
+				for !stop.Load() {
+					res, fault := serveOnce(lone, "GET", "/only/5")
+					if fault != nil || res == nil || !(res.base == "user:7" || res.base == "notFound") {
+						rep.badf("lone route: GET /only/5 answered by %+v (fault %v); admissible: user:7 or notFound", res, fault)
+					}
+					if res, fault := serveOnce(lone, "GET", "/other"); fault != nil || res == nil || res.base != "notFound" {
+						rep.badf("lone route: GET /other answered by %+v (fault %v); want notFound", res, fault)
+					}
+				}
+			}()
+		}
+	}
 	// façade registrations: two goroutines register through two façades (each with middlewares of its own) of one locked
 	// router and hand BOTH the same middleware list, a slice with spare capacity. The list belongs to the caller: a façade
 	// that appends its own middlewares to it in place writes the caller's backing array outside the router lock (a data
@@ -436,7 +469,7 @@ func raceC06(seed uint64, seconds int) {
 	time.Sleep(time.Duration(seconds) * time.Second)
 	stop.Store(true)
 	wg.Wait()
-	st, _ := json.Marshal(map[string]int64{"facades": nFacade.Load(), "serves": nServe.Load(), "writes": nWrite.Load(), "routes": nRoutes.Load(), "urls": nURL.Load(), "bursts": nBursts.Load(), "duels": nDuels.Load(), "bad": int64(rep.bad), "writers": int64(writers), "readers": int64(readers)})
+	st, _ := json.Marshal(map[string]int64{"lone": nLone.Load(), "facades": nFacade.Load(), "serves": nServe.Load(), "writes": nWrite.Load(), "routes": nRoutes.Load(), "urls": nURL.Load(), "bursts": nBursts.Load(), "duels": nDuels.Load(), "bad": int64(rep.bad), "writers": int64(writers), "readers": int64(readers)})
 	fmt.Printf("STATS %s\n", st)
 	if rep.bad > 0 {
 		os.Exit(1)
